@@ -63,6 +63,51 @@ async fn cycle(name: &str, c: &Arc<Client>, s: &mut ServerSide, n: usize) {
                 s.push(json!({"jsonrpc":"2.0","id":rq["id"],"result":true}));
             }
         }
+        "subs-overlap" => {
+            // two subscriptions alive at once; the server hands both the same subscription id
+            let sid = format!("S{n}");
+            let c2 = c.clone();
+            let ha = tokio::spawn(async move { c2.subscribe::<Value, _>("sub", rpc_params![], "unsub").await });
+            let rq = s.next_request().await.expect("subscribe A on the wire");
+            s.push(json!({"jsonrpc":"2.0","id":rq["id"],"result":sid}));
+            let a: Subscription<Value> = ha.await.unwrap().expect("A accepted");
+            let c2 = c.clone();
+            let hb = tokio::spawn(async move { c2.subscribe::<Value, _>("sub", rpc_params![], "unsub").await });
+            let rq = s.next_request().await.expect("subscribe B on the wire");
+            s.push(json!({"jsonrpc":"2.0","id":rq["id"],"result":sid}));
+            let b = match tokio::time::timeout(std::time::Duration::from_secs(3), hb).await {
+                Ok(r) => r.unwrap().ok(),
+                Err(_) => None,
+            };
+            for sub in [Some(a), b].into_iter().flatten() {
+                let u = tokio::spawn(async move { sub.unsubscribe().await });
+                if let Some(rq) = s.try_next_request(500).await {
+                    s.push(json!({"jsonrpc":"2.0","id":rq["id"],"result":true}));
+                }
+                // an unsubscribe that never completes shows up as leftover table entries below
+                let _ = tokio::time::timeout(std::time::Duration::from_secs(2), u).await;
+            }
+            // anything the client still wants to unsubscribe gets acknowledged
+            while let Some(rq) = s.try_next_request(200).await {
+                s.push(json!({"jsonrpc":"2.0","id":rq["id"],"result":true}));
+            }
+        }
+        "notif-handler-unregistered" => {
+            let sub: Subscription<Value> = c.subscribe_to_method(&format!("note{n}")).await.expect("registered");
+            // dropping the stream tells the background task to unregister the handler
+            drop(sub);
+            tokio::time::sleep(std::time::Duration::from_millis(100)).await;
+            s.push(json!({"jsonrpc":"2.0","method":format!("note{n}"),"params":[1]}));
+        }
+        "notif-handler-dropped" => {
+            let mut sub: Subscription<Value> = c.subscribe_to_method(&format!("note{n}")).await.expect("registered");
+            s.push(json!({"jsonrpc":"2.0","method":format!("note{n}"),"params":[1]}));
+            let _ = tokio::time::timeout(std::time::Duration::from_secs(2), sub.next()).await;
+            drop(sub);
+            // whatever the drop did, the next notification must not find a stale handler afterwards
+            tokio::time::sleep(std::time::Duration::from_millis(100)).await;
+            s.push(json!({"jsonrpc":"2.0","method":format!("note{n}"),"params":[2]}));
+        }
         other => panic!("unknown cycle {other}"),
     }
 }
